@@ -1,6 +1,6 @@
 ----------------------------- MODULE FloatTrace -----------------------------
 (* Trace validation for the Float module (C16): every event                                                  *)
-(*   [op, p ("f" binary32 / "d" binary64), md ("rt" run time / "ct" constant evaluation), x, (y, z, w), r, c]   *)
+(*   [op, p ("f" binary32 / "d" binary64 / "l" x87 extended, exact set only), md ("rt" run time / "ct" constant evaluation), x, (y, z, w), r, c]   *)
 (* recorded from the real functions is judged by the operators of FloatOps:                                   *)
 (*   exact set        r must equal the value defined on the triples (NaN: any NaN)                            *)
 (*   approximate set  Annex-F special values as equalities, otherwise  UlpLE(r, c, Tol[f])  where c is the    *)
@@ -37,7 +37,11 @@ ApproxUnary == {"sqrt", "cbrt", "exp", "exp2", "expm1", "log", "log2", "log10", 
 ApproxBinary == {"pow", "atan2", "hypot", "midpoint"}
 ApproxTernary == {"lerp", "hypot3"}
 ComplexFns == {"c_abs", "c_arg", "c_norm", "c_conj", "c_cos", "c_cosh", "c_sin", "c_sinh", "c_tan", "c_tanh", "c_log",
-               "c_log10", "c_polar", "c_add", "c_sub", "c_mul", "c_div"}
+               "c_log10", "c_polar", "c_add", "c_sub", "c_mul", "c_div",
+               "c_add_self", "c_sub_self", "c_mul_self", "c_div_self", "c_addeq_self", "c_subeq_self", "c_muleq_self", "c_diveq_self"}
+\* both operands are the same object (binary operator) / the right-hand side is *this (compound assignment)
+SelfOp == [c_add_self |-> "add", c_addeq_self |-> "add", c_sub_self |-> "sub", c_subeq_self |-> "sub",
+           c_mul_self |-> "mul", c_muleq_self |-> "mul", c_div_self |-> "div", c_diveq_self |-> "div"]
 CTol == T(16384, 1048576)
 
 TolOf(ev, fn) == IF ev.p = "f" THEN Tol[fn].f ELSE Tol[fn].d
@@ -73,8 +77,29 @@ NcInDomain(ev) ==
     ELSE IF fn \in ExactUnaryFp \cup ExactBinary THEN IsFinite(f, Val(ev, ev.c))
     ELSE IsNormal(f, Val(ev, ev.c)) \/ (IsZero(Val(ev, ev.c)) /\ IsZero(x))     \* approximate set: no underflow either
 
+\* long double (x87 extended): [s, e, j, f1, f2, f3]; the integer bit j must be canonical (1 iff e # 0)
+LVal(a) == NV(a[1], a[2], <<a[4], a[5], a[6]>>)
+LCanon(a) == a[3] = (IF a[2] = 0 THEN 0 ELSE 1)
+LJson(v) == ToJson(<<v.s, v.e, IF v.e = 0 THEN 0 ELSE 1, v.m[1], v.m[2], v.m[3]>>)
+JudgeL(ev) ==
+    LET fn == ev.op x == LVal(ev.x) IN
+    IF ~LCanon(ev.x) THEN "harness-noncanonical-input"
+    ELSE CASE fn \in ExactUnaryFp -> IF LCanon(ev.r) /\ NSame(F80, LVal(ev.r), NUnaryFp(F80, fn, x)) THEN "ok" ELSE "exact"
+           [] fn \in ExactUnaryInt -> IF ev.r = NUnaryInt(F80, fn, x) THEN "ok" ELSE "exact"
+           [] fn \in {"copysign", "fmin", "fmax", "nextafter"} ->
+                 IF ~LCanon(ev.y) THEN "harness-noncanonical-input"
+                 ELSE IF LCanon(ev.r) /\ NBinaryOK(F80, fn, x, LVal(ev.y), LVal(ev.r)) THEN "ok" ELSE "exact"
+           [] OTHER -> "harness-unknown-function"
+ExpectedL(ev) ==
+    LET fn == ev.op x == LVal(ev.x) IN
+    CASE fn \in ExactUnaryFp -> LJson(NUnaryFp(F80, fn, x))
+      [] fn \in ExactUnaryInt -> ToJson(NUnaryInt(F80, fn, x))
+      [] fn \in {"copysign", "fmin", "fmax", "nextafter"} -> LJson(NBinaryExpected(F80, fn, x, LVal(ev.y)))
+      [] OTHER -> "-"
+
 Judge(ev) ==
     IF "crash" \in DOMAIN ev THEN "crash"
+    ELSE IF ev.p = "l" THEN JudgeL(ev)
     ELSE IF "nc" \in DOMAIN ev THEN (IF NcInDomain(ev) THEN "not-constant" ELSE "ok")
     ELSE
     LET f == FmtOf(ev) fn == ev.op x == Val(ev, ev.x) IN
@@ -94,7 +119,12 @@ Judge(ev) ==
             ELSE ApproxVerdict(f, r, c, TolOf(ev, fn))
       [] fn \in ComplexFns ->
             LET r == Val(ev, ev.r) c == Val(ev, ev.c) tol == IF ev.p = "f" THEN CTol.f ELSE CTol.d IN
-            IF "r2" \in DOMAIN ev THEN
+            IF fn \in DOMAIN SelfOp /\ IsSmallInt(f, x) /\ IsSmallInt(f, Val(ev, ev.y))
+               /\ ~(SelfOp[fn] = "div" /\ IsZero(x) /\ IsZero(Val(ev, ev.y))) THEN
+                \* z op z with small-integer components has an exact value: 2z, 0, z*z, 1
+                LET want == ComplexSelf(f, SelfOp[fn], x, Val(ev, ev.y)) IN
+                IF NumSame(f, r, want[1]) /\ NumSame(f, Val(ev, ev.r2), want[2]) THEN "ok" ELSE "exact"
+            ELSE IF "r2" \in DOMAIN ev THEN
                 LET r2 == Val(ev, ev.r2) c2 == Val(ev, ev.c2)
                     v1 == IF IsNaN(f, c) \/ IsNaN(f, c2) \/ Dominant(f, c, c2) THEN ApproxVerdict(f, r, c, tol) ELSE "ok"
                     v2 == IF IsNaN(f, c) \/ IsNaN(f, c2) \/ Dominant(f, c2, c) THEN ApproxVerdict(f, r2, c2, tol) ELSE "ok"
@@ -104,6 +134,7 @@ Judge(ev) ==
 
 Expected(ev) ==
     IF "crash" \in DOMAIN ev \/ "nc" \in DOMAIN ev THEN "-"
+    ELSE IF ev.p = "l" THEN ExpectedL(ev)
     ELSE
     LET f == FmtOf(ev) fn == ev.op x == Val(ev, ev.x) IN
     CASE fn \in ExactUnaryFp -> AsJson(ev, UnaryFp(f, fn, x))
